@@ -530,7 +530,9 @@ is_destructible() const {
  */
 bool CPPStructType::
 is_default_constructible(CPPVisibility min_vis) const {
-  if (is_abstract()) {
+  if (min_vis <= V_public && is_abstract()) {
+    // An abstract class cannot be instantiated on its own, but it can still
+    // be constructed as the base class subobject of a derived class.
     return false;
   }
 
@@ -608,7 +610,9 @@ is_default_constructible(CPPVisibility min_vis) const {
  */
 bool CPPStructType::
 is_copy_constructible(CPPVisibility min_vis) const {
-  if (is_abstract()) {
+  if (min_vis <= V_public && is_abstract()) {
+    // An abstract class cannot be instantiated on its own, but it can still
+    // be constructed as the base class subobject of a derived class.
     return false;
   }
 
